@@ -434,6 +434,7 @@ def run(ctx):
     distinct_obs = set()
     leaks = set()
     nfail = ncaught = 0
+    state_changing_canaries = {}
     with fresh_pool(ctx.ncpu) as pool:
         for level in range(depth):
             CH = 12
@@ -473,8 +474,9 @@ def run(ctx):
                                                     dict(feats, canary=bad[0]), choices, None,
                                                     {k: r["can"][k] for k in bad}, {k: can0[k] for k in bad}, rp))
                 if r["fp2"] != r["fp1"]:
-                    rep.violations.append(violation(PROP, "bfs", "canary", "-", "successful-calls-change-global-state", feats, choices,
-                                                    None, r["can_changed"], {}, rp))
+                    # successful calls that change global state (e.g. a lazily filled cache) are not a violation by themselves -
+                    # only results are; the change is recorded so that the state count can be read correctly
+                    state_changing_canaries.update(r["can_changed"])
                 if r["fp1"] not in seen:
                     seen[r["fp1"]] = h + [ev]
                     if remaining[repr(h)] > 1:
@@ -490,6 +492,7 @@ def run(ctx):
             distinct_nontrivial=len(distinct_obs), samples=samples, events=len(evs), bfs_depth=depth,
             new_states_per_level=nstates_by_level, failing_transitions=nfail, caught_fault_transitions=ncaught,
             observed_state_changes=sorted(map(list, leaks))[:20], canaries=len(can0), exhaustive=True,
+            state_changed_by_successful_canaries=dict(list(state_changing_canaries.items())[:10]),
             rule="BFS over global-state fingerprints; every (state, event) pair up to the depth bound is executed in a fresh "
                  "fork (history replayed by real calls). distinct_nontrivial = distinct (event, observation) pairs")
     rep.assumptions = ["global state = what mc/statespace.py fingerprints (module/class-level containers, scalars, instances, "
@@ -523,8 +526,6 @@ def replay(ctx, v):
         bad = "result-depends-on-history"
     elif r["can"] != base["can"]:
         bad = "canary-differs-from-fresh-interpreter"
-    elif r["fp2"] != r["fp1"]:
-        bad = "successful-calls-change-global-state"
     if bad is None:
         return None
     out = dict(v)
